@@ -76,24 +76,31 @@ func declKey(fd *ast.FuncDecl) string {
 }
 
 type inliner struct {
-	pkg      *packages.Package
-	info     *types.Info
-	fset     *token.FileSet
-	decls    map[*types.Func]*ast.FuncDecl
-	fileOf   map[*ast.FuncDecl]*ast.File
-	cand     map[*types.Func]bool
-	why      map[*types.Func]string
-	n        int
-	rep      *inlineReport
-	changed  map[*ast.File]bool
-	curFile  *ast.File
-	curFunc  string
-	curDecl  *ast.FuncDecl
+	pkg     *packages.Package
+	info    *types.Info
+	fset    *token.FileSet
+	decls   map[*types.Func]*ast.FuncDecl
+	fileOf  map[*ast.FuncDecl]*ast.File
+	cand    map[*types.Func]bool
+	why     map[*types.Func]string
+	n       int
+	rep     *inlineReport
+	changed map[*ast.File]bool
+	curFile *ast.File
+	curFunc string
+	curDecl *ast.FuncDecl
+	// local closures bound once to a variable and only ever called (`fail := func(...) {...}`):
+	// inlined like helper functions, under a stand-in function object
+	litVar    map[*types.Var]*types.Func
+	litAssign map[*types.Func]*ast.AssignStmt
+	litUses   map[*types.Func]int
+	litOwner  map[*types.Func]*ast.FuncDecl
+	litRange  map[*types.Func][2]token.Pos
 	// imports that the bodies inlined into a function need (the copies carry no type
 	// information, so they are remembered here for the day the function is itself inlined)
 	extraImports map[*ast.FuncDecl]map[string]string
-	inlinedN map[*types.Func]int
-	keptN    map[*types.Func]int
+	inlinedN     map[*types.Func]int
+	keptN        map[*types.Func]int
 }
 
 // normaliseSources returns an overlay (file path -> transformed content) for the files of
@@ -240,6 +247,7 @@ func normaliseRound(repoDir string, orig, cur *packages.Package, overlay map[str
 			}
 		}
 	}
+	in.registerLocalClosures()
 	sort.Strings(rep.NewFuncs)
 	if len(in.cand) == 0 {
 		return preOverlay, false, nil
@@ -255,6 +263,11 @@ func normaliseRound(repoDir string, orig, cur *packages.Package, overlay map[str
 					callFuns[id] = true
 					if g, ok := in.info.Uses[id].(*types.Func); ok && in.decls[g] != nil {
 						calls[obj][g] = true
+					}
+					if v, ok := in.info.Uses[id].(*types.Var); ok {
+						if g := in.litVar[v]; g != nil && g != obj {
+							calls[obj][g] = true
+						}
 					}
 				}
 			}
@@ -360,6 +373,38 @@ func normaliseRound(repoDir string, orig, cur *packages.Package, overlay map[str
 		in.curDecl = fd
 		in.processBlock(fd.Body, fd)
 	}
+	// bindings of closures all of whose calls were inlined are dropped (the variable would be unused)
+	drop := map[ast.Stmt]bool{}
+	for g, as := range in.litAssign {
+		if in.inlinedN[g] > 0 && in.inlinedN[g] == in.litUses[g] && in.keptN[g] == 0 {
+			drop[as] = true
+			rep.Removed = append(rep.Removed, "closure "+g.Name())
+		}
+	}
+	if len(drop) > 0 {
+		filter := func(list []ast.Stmt) []ast.Stmt {
+			var out []ast.Stmt
+			for _, st := range list {
+				if !drop[st] {
+					out = append(out, st)
+				}
+			}
+			return out
+		}
+		for _, f := range pkg.Syntax {
+			ast.Inspect(f, func(n ast.Node) bool {
+				switch x := n.(type) {
+				case *ast.BlockStmt:
+					x.List = filter(x.List)
+				case *ast.CaseClause:
+					x.Body = filter(x.Body)
+				case *ast.CommClause:
+					x.Body = filter(x.Body)
+				}
+				return true
+			})
+		}
+	}
 	// function literals in package-level variable initialisers (the table builders, cobra commands)
 	for _, f := range pkg.Syntax {
 		in.curFile = f
@@ -379,6 +424,9 @@ func normaliseRound(repoDir string, orig, cur *packages.Package, overlay map[str
 	}
 	// remove helpers whose calls were all inlined
 	for obj, n := range in.inlinedN {
+		if in.litAssign[obj] != nil {
+			continue
+		}
 		if n > 0 && in.keptN[obj] == 0 && in.cand[obj] {
 			fd := in.decls[obj]
 			f := in.fileOf[fd]
@@ -485,7 +533,7 @@ func unsuitableBody(fd *ast.FuncDecl, info *types.Info) string {
 		ast.Inspect(n, func(m ast.Node) bool {
 			switch x := m.(type) {
 			case *ast.DeferStmt:
-				if !inLit {
+				if !inLit && !simpleTopLevelDefer(fd, x, info) {
 					reason = "defers"
 				}
 			case *ast.LabeledStmt:
@@ -785,6 +833,14 @@ func (in *inliner) candidateCallee(ce *ast.CallExpr) *types.Func {
 	if id == nil {
 		return nil
 	}
+	if v, isVar := in.info.Uses[id].(*types.Var); isVar {
+		if g := in.litVar[v]; g != nil && in.cand[g] {
+			if _, plain := ce.Fun.(*ast.Ident); plain {
+				return g
+			}
+		}
+		return nil
+	}
 	g, ok := in.info.Uses[id].(*types.Func)
 	if !ok || !in.cand[g] || in.decls[g] == nil {
 		return nil
@@ -941,6 +997,13 @@ func (in *inliner) expand(ce *ast.CallExpr, g *types.Func, lhs []ast.Expr, tok t
 	if lhs != nil && len(lhs) != nres {
 		return keep("result count")
 	}
+	for _, st := range fd.Body.List {
+		if _, isDefer := st.(*ast.DeferStmt); isDefer {
+			// deferred calls run between the helper's return and the use of its results:
+			// no duplication of the consumer into the return points
+			consume, terminal = nil, false
+		}
+	}
 	// names the body refers to must mean the same thing at the call site
 	callScope := in.pkg.Types.Scope().Innermost(ce.Pos())
 	if callScope == nil {
@@ -972,6 +1035,22 @@ func (in *inliner) expand(ce *ast.CallExpr, g *types.Func, lhs []ast.Expr, tok t
 			}
 		default:
 			if obj.Parent() == in.pkg.Types.Scope() || obj.Parent() == types.Universe {
+				_, found := callScope.LookupParent(id.Name, ce.Pos())
+				if found != obj {
+					conflict = id.Name
+				}
+			} else if rg, isLit := in.litRange[g]; isLit && obj.Pkg() == in.pkg.Types && obj.Pos().IsValid() && (obj.Pos() < rg[0] || obj.Pos() > rg[1]) {
+				// a local the closure captures (variable, constant, type): the name must denote
+				// it at the call site too
+				switch o := obj.(type) {
+				case *types.Var:
+					if o.IsField() {
+						return true
+					}
+				case *types.Const, *types.TypeName:
+				default:
+					return true
+				}
 				_, found := callScope.LookupParent(id.Name, ce.Pos())
 				if found != obj {
 					conflict = id.Name
@@ -1104,6 +1183,58 @@ func (in *inliner) expand(ce *ast.CallExpr, g *types.Func, lhs []ast.Expr, tok t
 	body := copyNode(fd.Body).(*ast.BlockStmt)
 	usedGoto := false
 	bad := ""
+	// deferred calls of the helper: registered where the defer statement stands, run after
+	// the helper's return point (in reverse order), before the caller uses the results
+	var deferredCalls []ast.Stmt
+	hasDefers := false
+	for i, st := range fd.Body.List {
+		ds, ok := st.(*ast.DeferStmt)
+		if !ok {
+			continue
+		}
+		hasDefers = true
+		consume, terminal = nil, false
+		k := len(deferredCalls)
+		flag := fmt.Sprintf("%sd%d", pfx, k)
+		pre = append(pre, declVar(flag, types.Typ[types.Bool], nil))
+		reg := []ast.Stmt{&ast.AssignStmt{Lhs: []ast.Expr{ast.NewIdent(flag)}, Tok: token.ASSIGN, Rhs: []ast.Expr{ast.NewIdent("true")}}}
+		cds := body.List[i].(*ast.DeferStmt)
+		call := &ast.CallExpr{}
+		switch fx := ds.Call.Fun.(type) {
+		case *ast.FuncLit:
+			ft := flag + "f"
+			pre = append(pre, declVar(ft, in.info.TypeOf(fx), nil))
+			reg = append(reg, &ast.AssignStmt{Lhs: []ast.Expr{ast.NewIdent(ft)}, Tok: token.ASSIGN, Rhs: []ast.Expr{cds.Call.Fun}})
+			call.Fun = ast.NewIdent(ft)
+		case *ast.SelectorExpr:
+			if in.info.Selections[fx] != nil {
+				rt := flag + "r"
+				pre = append(pre, declVar(rt, in.info.TypeOf(fx.X), nil))
+				reg = append(reg, &ast.AssignStmt{Lhs: []ast.Expr{ast.NewIdent(rt)}, Tok: token.ASSIGN, Rhs: []ast.Expr{cds.Call.Fun.(*ast.SelectorExpr).X}})
+				call.Fun = &ast.SelectorExpr{X: ast.NewIdent(rt), Sel: ast.NewIdent(fx.Sel.Name)}
+			} else {
+				call.Fun = cds.Call.Fun
+			}
+		default:
+			call.Fun = cds.Call.Fun
+		}
+		fsig, _ := in.info.TypeOf(ds.Call.Fun).(*types.Signature)
+		for ai, a := range ds.Call.Args {
+			at := in.info.TypeOf(a)
+			if fsig != nil && ai < fsig.Params().Len() && !(fsig.Variadic() && ai >= fsig.Params().Len()-1) {
+				at = fsig.Params().At(ai).Type()
+			}
+			if b, isB := at.(*types.Basic); isB && b.Info()&types.IsUntyped != 0 {
+				at = types.Default(at)
+			}
+			an := fmt.Sprintf("%sa%d", flag, ai)
+			pre = append(pre, declVar(an, at, nil))
+			reg = append(reg, &ast.AssignStmt{Lhs: []ast.Expr{ast.NewIdent(an)}, Tok: token.ASSIGN, Rhs: []ast.Expr{cds.Call.Args[ai]}})
+			call.Args = append(call.Args, ast.NewIdent(an))
+		}
+		body.List[i] = &ast.BlockStmt{List: reg}
+		deferredCalls = append(deferredCalls, &ast.IfStmt{Cond: ast.NewIdent(flag), Body: &ast.BlockStmt{List: []ast.Stmt{&ast.ExprStmt{X: call}}}})
+	}
 	mkReturn := func(rs *ast.ReturnStmt, last bool) ast.Stmt {
 		var list []ast.Stmt
 		if consume != nil {
@@ -1211,14 +1342,28 @@ func (in *inliner) expand(ce *ast.CallExpr, g *types.Func, lhs []ast.Expr, tok t
 			tail = &ast.EmptyStmt{}
 		}
 	}
-	if usedGoto {
-		if tail == nil {
-			tail = &ast.EmptyStmt{}
+	if hasDefers {
+		if usedGoto {
+			out = append(out, &ast.LabeledStmt{Label: ast.NewIdent(label), Stmt: &ast.EmptyStmt{}})
 		}
-		tail = &ast.LabeledStmt{Label: ast.NewIdent(label), Stmt: tail}
-	}
-	if tail != nil {
-		out = append(out, tail)
+		for i := len(deferredCalls) - 1; i >= 0; i-- {
+			out = append(out, deferredCalls[i])
+		}
+		if tail != nil {
+			if _, isEmpty := tail.(*ast.EmptyStmt); !isEmpty {
+				out = append(out, tail)
+			}
+		}
+	} else {
+		if usedGoto {
+			if tail == nil {
+				tail = &ast.EmptyStmt{}
+			}
+			tail = &ast.LabeledStmt{Label: ast.NewIdent(label), Stmt: tail}
+		}
+		if tail != nil {
+			out = append(out, tail)
+		}
 	}
 	// imports of the callee's file that the caller's file lacks
 	for path, name := range in.extraImports[fd] {
@@ -1494,4 +1639,137 @@ func (in *inliner) tailDup(pre []ast.Stmt, s ast.Stmt, terminal bool) ([]ast.Stm
 		}
 	}
 	return in.expand(ce, g, nil, token.ILLEGAL, nil, consume, terminal)
+}
+
+// registerLocalClosures finds `name := func(...) {...}` bindings whose variable is only ever
+// called (never reassigned, passed, deferred or started as a goroutine, and not from inside
+// the literal itself) and enters them as inlining candidates.
+func (in *inliner) registerLocalClosures() {
+	in.litVar = map[*types.Var]*types.Func{}
+	in.litAssign = map[*types.Func]*ast.AssignStmt{}
+	in.litUses = map[*types.Func]int{}
+	in.litOwner = map[*types.Func]*ast.FuncDecl{}
+	in.litRange = map[*types.Func][2]token.Pos{}
+	type owner struct {
+		fd   *ast.FuncDecl
+		file *ast.File
+	}
+	var owners []owner
+	for _, fd := range in.decls {
+		owners = append(owners, owner{fd, in.fileOf[fd]})
+	}
+	sort.Slice(owners, func(i, j int) bool { return owners[i].fd.Pos() < owners[j].fd.Pos() })
+	for _, ow := range owners {
+		type bind struct {
+			id  *ast.Ident
+			lit *ast.FuncLit
+			as  *ast.AssignStmt
+		}
+		var binds []bind
+		ast.Inspect(ow.fd.Body, func(n ast.Node) bool {
+			as, ok := n.(*ast.AssignStmt)
+			if !ok || as.Tok != token.DEFINE || len(as.Lhs) != 1 || len(as.Rhs) != 1 {
+				return true
+			}
+			id, ok := as.Lhs[0].(*ast.Ident)
+			lit, ok2 := as.Rhs[0].(*ast.FuncLit)
+			if ok && ok2 && id.Name != "_" {
+				binds = append(binds, bind{id, lit, as})
+			}
+			return true
+		})
+		for _, b := range binds {
+			v, ok := in.info.Defs[b.id].(*types.Var)
+			if !ok {
+				continue
+			}
+			sig, ok := in.info.TypeOf(b.lit).(*types.Signature)
+			if !ok {
+				continue
+			}
+			okUses, nUses := true, 0
+			var stack []ast.Node
+			ast.Inspect(ow.fd.Body, func(n ast.Node) bool {
+				if n == nil {
+					stack = stack[:len(stack)-1]
+					return true
+				}
+				stack = append(stack, n)
+				id, isId := n.(*ast.Ident)
+				if !isId || in.info.Uses[id] != types.Object(v) {
+					return true
+				}
+				if id.Pos() >= b.lit.Pos() && id.Pos() <= b.lit.End() {
+					okUses = false // recursive
+					return true
+				}
+				if len(stack) < 2 {
+					okUses = false
+					return true
+				}
+				ce, isCall := stack[len(stack)-2].(*ast.CallExpr)
+				if !isCall || ce.Fun != ast.Expr(id) {
+					okUses = false
+					return true
+				}
+				if len(stack) >= 3 {
+					switch stack[len(stack)-3].(type) {
+					case *ast.DeferStmt, *ast.GoStmt:
+						okUses = false
+					}
+				}
+				nUses++
+				return true
+			})
+			if !okUses || nUses == 0 {
+				continue
+			}
+			fake := types.NewFunc(b.lit.Pos(), in.pkg.Types, b.id.Name, sig)
+			fd := &ast.FuncDecl{Name: ast.NewIdent(b.id.Name), Type: b.lit.Type, Body: b.lit.Body}
+			if r := unsuitableBody(fd, in.info); r != "" {
+				continue
+			}
+			in.decls[fake] = fd
+			in.fileOf[fd] = ow.file
+			in.cand[fake] = true
+			in.litVar[v] = fake
+			in.litAssign[fake] = b.as
+			in.litUses[fake] = nUses
+			in.litOwner[fake] = ow.fd
+			in.litRange[fake] = [2]token.Pos{b.lit.Pos(), b.lit.End()}
+		}
+	}
+}
+
+
+// simpleTopLevelDefer: a defer statement that stands directly in the function's statement list
+// (so it is registered at most once, at a known point), in a function without named results
+// (a deferred call cannot change what is returned), deferring a method call, a function call or
+// a parameterless literal. Such a helper can be inlined with the deferred calls placed after
+// its return point. (What differs is the panic path only: the deferred call is then not run.)
+func simpleTopLevelDefer(fd *ast.FuncDecl, ds *ast.DeferStmt, info *types.Info) bool {
+	top := false
+	for _, st := range fd.Body.List {
+		if st == ast.Stmt(ds) {
+			top = true
+		}
+	}
+	if !top {
+		return false
+	}
+	if fd.Type.Results != nil {
+		for _, f := range fd.Type.Results.List {
+			if len(f.Names) > 0 {
+				return false
+			}
+		}
+	}
+	switch fx := ds.Call.Fun.(type) {
+	case *ast.FuncLit:
+		return len(ds.Call.Args) == 0
+	case *ast.SelectorExpr, *ast.Ident:
+		_ = fx
+		return ds.Call.Ellipsis == token.NoPos
+	}
+	return false
 }
